@@ -83,6 +83,11 @@ func (k *KVStore) isCompactionOK(t *table.Table) bool {
 
 func (k *KVStore) Compaction() (bool, error) {
 	for _, t := range k.tables {
+		if t.State() == table.ReadWriteState {
+			// evictTable moves the entries to the read-write table. Draining that
+			// table into itself would delete every moved entry.
+			continue
+		}
 		if k.isCompactionOK(t) {
 			err := k.evictTable(t)
 			if err != nil {
